@@ -20,6 +20,95 @@ import (
 func init() {
 	ops["walk"] = runWalk
 	ops["step"] = runWalk
+	ops["split"] = runSplit
+}
+
+// runSplit: the whole batch in one Walk versus the same messages delivered in consecutive
+// batches (every split point, and one at a time); where neither the limit nor a breakpoint
+// intervenes the final state and the emitted messages must be the same (C05).
+func runSplit(cfg Config) {
+	enc := json.NewEncoder(out)
+	g := gen.New(cfg.Seed)
+	for i := 0; i < cfg.N; i++ {
+		c := g.WalkCase("split")
+		l := 40
+		c.Limit = &l
+		c.Bp = nil
+		if len(c.Msgs) == 0 {
+			c.Msgs = []interface{}{g.Msg(), g.Msg()}
+		}
+		mark(i)
+		line := runOneWalk("walk", i, c)
+		line.Probe["splitEq"] = splitProbe(c)
+		enc.Encode(line)
+	}
+}
+
+type walkSummary struct {
+	done    bool
+	final   string
+	emitted []interface{}
+	ok      bool
+}
+
+func walkSummarize(spec *core.Spec, st *core.State, msgs []interface{}, ctl *core.Control) (sum walkSummary, next *core.State) {
+	defer func() {
+		if r := recover(); r != nil {
+			sum.ok = false
+		}
+	}()
+	w, err := spec.Walk(context.Background(), st, msgs, ctl, nil)
+	if err != nil {
+		return walkSummary{}, st
+	}
+	next = st
+	if to := w.To(); to != nil {
+		next = to
+	}
+	sum = walkSummary{done: w.StoppedBecause == core.Done, final: gen.Canon(stateJSON(next.Copy())), ok: true}
+	w.DoEmitted(func(x interface{}) error { sum.emitted = append(sum.emitted, x); return nil })
+	return sum, next
+}
+
+func splitProbe(c gen.WalkCase) bool {
+	spec, err := buildSpec(context.Background(), c.Spec)
+	if err != nil || c.Spec.HasLoop() {
+		return true
+	}
+	ctl := controlOf(c)
+	whole, _ := walkSummarize(spec, stateOf(c.St), gen.DeepCopy(c.Msgs).([]interface{}), ctl)
+	if !whole.ok || !whole.done {
+		return true // the claim is conditional on completion
+	}
+	check := func(cuts []int) bool {
+		st := stateOf(c.St)
+		var emitted []interface{}
+		final := ""
+		prev := 0
+		cuts = append(cuts, len(c.Msgs))
+		for _, cut := range cuts {
+			part := gen.DeepCopy(c.Msgs[prev:cut]).([]interface{})
+			prev = cut
+			sum, next := walkSummarize(spec, st, part, ctl)
+			if !sum.ok || !sum.done {
+				return true
+			}
+			emitted = append(emitted, sum.emitted...)
+			final = sum.final
+			st = next
+		}
+		return final == whole.final && gen.Canon(emitted) == gen.Canon(whole.emitted)
+	}
+	for k := 0; k <= len(c.Msgs); k++ {
+		if !check([]int{k}) {
+			return false
+		}
+	}
+	ones := []int{}
+	for k := 1; k < len(c.Msgs); k++ {
+		ones = append(ones, k)
+	}
+	return check(ones)
 }
 
 // normErr maps error texts to the form the model produces (positions, Go type names and
